@@ -392,6 +392,7 @@ var knownShapes = []struct {
 	Types []string
 }{
 	{"typedef-of-container-of-self/non-empty-default", "typedef map<string, S> M\nstruct S { 1: optional M m = {\"a\": {\"m\": {}}} }\n", []string{"M", "S"}},
+	{"struct-literal-naming-typedef-field-of-struct-in-cycle", "typedef i32 Num\nstruct B { 1: optional A a\n 2: optional Num x }\nstruct A { 1: optional B b = {\"x\": 1} }\n", []string{"A", "B", "Num"}},
 	{"struct-literal-on-struct-in-cycle/later-typedef-field-default", "typedef S T\ntypedef string Name\nstruct S { 1: optional U u\n 2: optional Name n = \"x\" }\nstruct U { 1: optional T t = {} }\n", []string{"Name", "S", "T", "U"}},
 }
 
